@@ -44,8 +44,9 @@ PROP = {
         "IdenaModel.Rewards.ledger_chain_inv",
         "IdenaModel.Rewards.ledger_chain_bound",
     ],
-    "channels": [{"name": "C04", "exe": "oracle_c04"}, {"name": "C04fn", "exe": "oracle_c04"}],
-    "shim_tags": [],
+    "channels": [{"name": "C04", "exe": "oracle_c04"}, {"name": "C04fn", "exe": "oracle_c04"},
+                 {"name": "C04tx", "exe": "oracle_c05"}],   # D-tx (harness/internal/dtx) with the tx-level C04 oracle; model driver of M-Ledger
+    "shim_tags": ["c05"],
     "trusted_base": [
         "what is data of a block event in the model, for arbitrary values, and not computed by it: the big.Float stake weights of the final committee (the model gets each member's requested integer), the float32 weights of the epoch categories and the category totals (as decimals), the validation outcome (who is killed, verified, rewarded), the sets of dust accounts / unlocked / deleted identities",
         "exact arithmetic of shopspring/decimal (constants from float32 via shortest decimal, Mul exact, Div = DivRound to 16 fractional digits half away from zero) and math.ToInt = truncation: restated in Lean (Rate, toInt, decDiv16) and compared line by line with the real functions (channel C04fn)",
